@@ -68,7 +68,7 @@ PROPS = {
         note_keys=["grid_size"],
         rule="exhaustive grid: 9 stack types x {DUP DDUP POP SWAP ROT YANK YANKDUP SHOVE FLUSH STACKDEPTH} x depths 0..7 (10 thorough) x "
              "indices {MIN,-2,-1,0..depth+2,MAX} x one-hot BOOLEAN families x bystander variants; distinct = (name, depth, index, hot).",
-        floors={"83 instructions": lambda a, t: set_n(a, "instructions") >= 83},
+        floors={"79 instructions": lambda a, t: set_n(a, "instructions") >= 79},
     ),
     "C09": dict(
         jobs=lambda tier: both(8, None, stall_s=40),
